@@ -3,7 +3,7 @@
    embedding lemmas; the induction over the token tree and the Markdown/RST renderers are covered by the
    oracle only. *)
 From Coq Require Import ZArith List Bool Lia.
-From Verif Require Import PyStr Util UtilGen UtilProofs Tmpl HtmlRender TmplCheck TmplBalance TmplGen C18 Inline Block Doc HtmlDoc HtmlDocProofs HtmlWellNested Entry.
+From Verif Require Import PyStr Util UtilGen UtilProofs Tmpl HtmlRender TmplCheck TmplBalance TmplGen C18 Inline Block Doc HtmlDoc HtmlDocProofs HtmlWellNested HtmlLeaves Entry.
 Import ListNotations.
 Open Scope Z_scope.
 
@@ -112,6 +112,32 @@ Proof. split; [apply grammar_rejects_lt|apply grammar_rejects_open_attr]. Qed.
 Theorem C06_well_nested_output_is_a_fragment : forall px hw s out, html_x px true hw s = Ok out -> hrun Data out = Data.
 Proof. intros px hw s out H. exact (html_returns_to_data false out (C06_whole_document_is_well_nested px hw s out H)). Qed.
 
+(* ---- every leaf is shown: for EVERY document, the escaped HTML output contains the image of every text, code-span,
+   inline-HTML, code-block and HTML-block leaf of the AST, one after the other in document order; the image of a leaf is
+   escape(raw) (escape(raw.strip()) for an HTML block), and HTML-unescaping it gives the raw text back (C18).  Text
+   under an image is not a leaf of this statement (it goes through striptags into the alt attribute; the oracle covers
+   it).  The per-template facts are decided on the regenerated templates. ---- *)
+Lemma ext_shows : forall name, shows (ext_template name) 0 is_plain = true.
+Proof. intros name. apply (ext_template_cases6 name (fun t => shows t 0 is_plain = true)); vm_compute; reflexivity. Qed.
+
+Definition leaves_of (ast : list node) : list str := flat_map (node_leaves (html_env true) escape_ops) ast.
+
+Theorem C06_whole_document_shows_every_leaf_in_order : forall px hw s ast out,
+  doc_parse_x px hw s = Ok ast -> html_x px true hw s = Ok out -> in_order (leaves_of ast) out.
+Proof.
+  intros px hw s ast out Ha H. unfold html_x, bind in H. rewrite Ha in H. inversion H; subst.
+  apply (doc_leaves (html_env true) escape_ops ext_template eq_refl ext_shows); vm_compute; reflexivity.
+Qed.
+
+(* the document a<b *c* `d&` *)
+Example C06_leaves_not_vacuous :
+  match doc_parse_x false false [97; 60; 98; 32; 42; 99; 42; 32; 96; 100; 38; 96] with
+  | Ok ast => leaves_of ast = [[97; 38; 108; 116; 59; 98; 32]; [99]; [32]; [100; 38; 97; 109; 112; 59]]
+  | _ => False
+  end.
+Proof. vm_compute. reflexivity. Qed.
+
 Print Assumptions C06_templates_balanced.
+Print Assumptions C06_whole_document_shows_every_leaf_in_order.
 Print Assumptions C06_leaves_escaped_once.
 Print Assumptions C06_whole_document_is_well_nested.
